@@ -77,9 +77,10 @@ func init() {
 		partGated(c, a, []func(*sut.Proc) *e2.Result{
 			func(p *sut.Proc) *e2.Result { return e2.G9HeldTick(p, false) },
 			func(p *sut.Proc) *e2.Result { return e2.G9HeldTick(p, true) }}, c.Pick(2, 10))
-		partStepThrough(c, a, []string{"leave", "join", "switch"})
+		partStepThrough(c, a, []string{"leave", "join", "switch", "join-vs-lastleave"})
 		partStepPairs(c, a, [][2]string{{"leave", "join2"}, {"join", "leave2"}, {"switch", "join2"}})
 		partRealBinaryDefaults(c, a, "C11")
+		partLagSenders(c, a)
 		return a.finish(c)
 	}
 }
